@@ -344,6 +344,25 @@ package httpserver
 //@   at call invoke:(io.Reader).Read#1 do blen(c.buf) = blen(c.buf) + result0
 //@   ensures [buffer_invariant] (!old(c.readHello) && !c.readHello && err == nil) ==> blen(c.buf) == old(blen(c.buf)) + n
 
+//@ unit hello_listener_accept props=C19 filter=`tlsHelloListener\)\.Accept$`
+//@ // The ClientHello recorded for a connection is parsed from the bytes THAT connection sent: the capture buffer comes
+//@ // from a pool shared by all connections, and the connection handed to crypto/tls starts with it empty.
+//@ ghostfn blen
+//@ extern (*bytes.Buffer).Reset
+//@   modifies ghost:blen
+//@   ensures blen(b) == 0
+//@ extern (*sync.Pool).Get
+//@   ensures result != nil
+//@ extern invoke:(net.Listener).Accept
+//@   ensures result1 == nil ==> result0 != nil
+//@ extern crypto/tls.Server
+//@   requires [connection_starts_with_empty_capture_buffer] (*clientHelloConn)(conn) != nil && (*clientHelloConn)(conn).buf != nil && blen((*clientHelloConn)(conn).buf) == 0
+//@   ensures result != nil
+//@ func (*tlsHelloListener).Accept
+//@   requires l != nil && l.Listener != nil
+//@   modifies ghost:blen
+//@   ensures [conn_or_error] (result1 == nil) == (result0 != nil)
+
 //@ unit split_host_path frames=on props=C01 filter=`vhostTrie\)\.splitHostPath$`
 //@ // "host matching ignores letter case and port": the key both Insert and Match look up is the lower-cased text before the
 //@ // first slash, with the port removed exactly when net.SplitHostPort accepts it as host:port (hostOf/hasPort below ARE
